@@ -57,7 +57,7 @@ Proof. vm_compute. reflexivity. Qed.
 
 (* ------------------------------------------------------------------ footnotes *)
 From Coq Require Import Permutation Sorted.
-From V Require Import Model.Footnotes Spec.FootnoteSpec Proofs.FootnoteProofs Proofs.FootnoteOrder.
+From V Require Import Model.Footnotes Spec.FootnoteSpec Proofs.FootnoteProofs Proofs.FootnoteOrder Proofs.FootnoteResolve.
 From V Require Spec.Valid.
 
 (* sort_perm_indep: the tree returned by process does not depend on the order in which the HashMap's
@@ -127,6 +127,41 @@ Example C15_numbered_in_order_example :
   ref_ixs (fst (refs idb idb w_order (collect idb idb (top_defs w_order) 0 [], 0%N))) = [1; 2; 1]%N /\
   snd (snd (refs idb idb w_order (collect idb idb (top_defs w_order) 0 [], 0%N))) = 2%N.
 Proof. exact w_order_example. Qed.
+
+(* "every footnote reference points to a definition" (the name half) and "unresolved references stay literal text":
+   every FootnoteReference node left in the tree by the reference walk carries the normalised name of a definition
+   reachable from the root and a number >= 1; the walk never changes the key set of the map; a reference whose folded
+   label is the folded label of no reachable definition becomes the Text node [^name] and leaves the state alone, and one
+   whose folded label is defined stays a reference — at every state with the collected key set, i.e. (C15_walk_keeps_keys)
+   at every state of the walk. *)
+Theorem C15_refs_point_to_definitions : forall (fold pres : bytes -> bytes) root,
+  refs_leaf root = true ->
+  let r := refs fold pres root (collect fold pres (top_defs root) 0 [], 0%N) in
+  Forall (fun p : bytes * N * N =>
+            (exists d, In d (top_defs root) /\ fst (fst p) = pres (pres (def_name d))) /\ (1 <= snd p)%N)
+         (all_refs (fst r)).
+Proof. exact refs_point_to_definitions. Qed.
+Print Assumptions C15_refs_point_to_definitions.
+
+Theorem C15_walk_keeps_keys : forall (fold pres : bytes -> bytes) n st,
+  map f_key (fst (snd (refs fold pres n st))) = map f_key (fst st).
+Proof. exact refs_keys. Qed.
+Print Assumptions C15_walk_keeps_keys.
+
+Theorem C15_unresolved_stay_literal : forall (fold pres : bytes -> bytes) root st name r i sp,
+  map f_key (fst st) = map f_key (collect fold pres (top_defs root) 0 []) ->
+  (forall d, In d (top_defs root) -> fold (def_name d) <> fold name) ->
+  refs fold pres (Node (FootnoteReference name r i) sp []) st
+  = (Node (Text ([x5b; x5e] ++ name ++ [x5d])) sp [], st).
+Proof. exact unresolved_stay_literal. Qed.
+Print Assumptions C15_unresolved_stay_literal.
+
+Theorem C15_resolved_stay_references : forall (fold pres : bytes -> bytes) root st name r i sp,
+  map f_key (fst st) = map f_key (collect fold pres (top_defs root) 0 []) ->
+  (exists d, In d (top_defs root) /\ fold (def_name d) = fold name) ->
+  is_ref (nval (fst (refs fold pres (Node (FootnoteReference name r i) sp []) st))) = true.
+Proof. exact resolved_stay_references. Qed.
+Print Assumptions C15_resolved_stay_references.
 
 (* NOT proved (kept visible; evaluated on every real final tree and every model result by the check):
    every reference left in the tree carries the number and name of exactly one appended definition,
